@@ -210,7 +210,9 @@ def stepLine (_ : Unit) (op obs : String) : Unit × String :=
     let stack := if fl == "-" then [] else fl.splitOn ","
     match parsePayload pl, stack.mapM writeCode, rb.toNat? with
     | some p, some codes, some rbn =>
-      if mode == "allx" then ((), obs) else
+      -- C03's exception: all filters enabled and the plain payload is itself claimed by a bidder
+      if mode == "allx" ∨ (mode == "all" ∧ obsField obs "psig" == "1") then ((), obs) else
+      let psig := s!" psig={obsField obs "psig"}"
       let whalf := s!"w=ok opts={optStatuses opts} wcodes={codesStr codes}"
       if stack.all isText ∧ !stack.isEmpty then
         let bpb := ((bb.splitOn "/").headD "-").toNat?.getD 10240
@@ -218,18 +220,19 @@ def stepLine (_ : Unit) (op obs : String) : Unit × String :=
         let hx := if enc.length ≤ 400 then " hex=" ++ LA.toHex enc else ""
         let (bl, layers, st) := peel (clientBlocks enc rbn) 0
         let dec := bl.flatten
-        ((), whalf ++ s!" enc={sizeHash enc}{hx}" ++ readerHalf st dec p (List.replicate layers 7))
+        ((), whalf ++ s!" enc={sizeHash enc}{hx}" ++ psig ++ readerHalf st dec p (List.replicate layers 7))
       else if stack.contains "zstd" ∧ zstdLong opts > 27 ∧ !p.isEmpty then
         -- known finding C03-zstd-long: the write filter accepts long=28..31 (documented range 10..31),
         -- the read filter never raises ZSTD_d_windowLogMax above the library default (27)
-        ((), whalf ++ s!" enc={obsField obs "enc"} r=fatal hdr=- data=ok dec={sizeHash []} eq=0@0 ubytes=-1 rcodes=- rnames=- end=- close=ok")
+        ((), whalf ++ s!" enc={obsField obs "enc"}{psig} r=fatal hdr=- data=ok dec={sizeHash []} eq=0@0 ubytes=-1 rcodes=- rnames=- end=- close=ok")
       else
-        ((), whalf ++ s!" enc={obsField obs "enc"}" ++ readerHalf "ok" p p codes)
+        ((), whalf ++ s!" enc={obsField obs "enc"}" ++ psig ++ readerHalf "ok" p p codes)
     | _, _, _ => ((), "bad-op")
-  | ["mm", fl, _, pa, _, pb, _, _] =>
+  | ["mm", fl, _, pa, _, pb, _, mode] =>
     match parsePayload pa, parsePayload pb, (fl.splitOn ",").mapM writeCode with
     | some a, some b, some codes =>
-      ((), s!"wa=ok wb=ok wcodes={codesStr codes} encA={obsField obs "encA"} encB={obsField obs "encB"}" ++
+      if mode == "all" ∧ obsField obs "psig" == "1" then ((), obs) else
+      ((), s!"wa=ok wb=ok wcodes={codesStr codes} encA={obsField obs "encA"} encB={obsField obs "encB"} psig={obsField obs "psig"}" ++
            readerHalf "ok" (a ++ b) (a ++ b) codes)
     | _, _, _ => ((), "bad-op")
   | _ => ((), "bad-op")
